@@ -45,14 +45,14 @@ DEC = {"RETRY": RetryPolicy.RETRY, "NEXT": RetryPolicy.RETRY_NEXT_HOST, "RETHROW
 
 # which property a projected field speaks about
 FIELD_OWNER = {
-    "cb": "C14", "eb": "C14", "dlv": "C14", "final": "C14", "result": "C14",
-    "timer": "C15", "deadline": "C15", "now": "C15", "due": "C15",
+    "cb": "C14", "eb": "C14", "dlv": "C14", "final": "C14", "result": "C14", "refq": "C14",
+    "timer": "C15", "deadline": "C15", "now": "C15", "due": "C15", "rechecks": "C15",
     "policyLog": "C16", "sentLog": "C16", "retries": "C16", "cl": "C16", "queue": "C16", "specLeft": "C16",
     "tried": "C17", "errs": "C17", "plan": "C17", "pool": "C17", "nhaErrors": "C17", "lastConn": "C17",
     "att": None, "epoch": None, "paging": None,
 }
 GROUPS = {
-    "C14": ["cb", "eb", "dlv", "final", "result"],
+    "C14": ["cb", "eb", "dlv", "final", "result", "refq"],
     "C15": ["timer", "now", "due"],
     "C16": ["policyLog", "sentLog", "retries", "cl", "queue", "specLeft"],
     "C17": ["tried", "errs", "plan", "pool", "nhaErrors", "lastConn"],
@@ -145,10 +145,11 @@ def _on_block(obj, timeout):
 
 class ReqHarness:
     VARS = ("pool", "plan", "tried", "errs", "att", "sentLog", "policyLog", "retries", "cl", "specLeft", "timer",
-            "final", "result", "paging", "cb", "eb", "dlv", "queue", "epoch", "lastConn", "nhaErrors", "now", "due")
+            "final", "result", "paging", "cb", "eb", "dlv", "queue", "epoch", "lastConn", "nhaErrors", "now", "due", "rechecks", "refq")
 
-    def __init__(self, nhosts, pool, idem, spec, target, max_epoch=2, ids="default", tm=(0, 0)):
+    def __init__(self, nhosts, pool, idem, spec, target, max_epoch=2, ids="default", tm=(0, 0), prep="none"):
         self.n = nhosts
+        self.prep = str(prep)             # "none": SimpleStatement; "yes"/"no": BoundStatement of a PreparedStatement flagged so
         self.ids = str(ids)
         # (request timeout, speculative delay) in virtual seconds; (0, 0) = untimed (a timeout far beyond everything)
         self.timed = tm[0] > 0
@@ -166,8 +167,24 @@ class ReqHarness:
                                    request_timeout=self.timeout,
                                    speculative_execution_policy=ConstantSpeculativeExecutionPolicy(self.delay, self.spec))
         self.cluster = make_cluster(self.world, self.addrs[:1], execution_profiles={EXEC_PROFILE_DEFAULT: profile},
-                                    conviction_policy_factory=NeverConvict)
+                                    conviction_policy_factory=NeverConvict, prepare_on_all_hosts=False)
         self.session = self.cluster.connect(wait_for_all_pools=True)
+        self.prepared = None
+        if self.prep != "none":
+            # the real Session.prepare(), answered at once by the node; a statement without bind markers and without
+            # result metadata (so that EXECUTE does not skip the metadata)
+            def answer(node, p):
+                if p.req.get("op") == "PREPARE":
+                    node.respond(p, wire.RESULT, wire.body_prepared(b"\x01\x02", [], [], [], 4))
+                else:
+                    FakeNode.default_answer(node, p)
+            for node in self.nodes:
+                node.auto, node.auto_answer = True, answer
+            self.prepared = self.session.prepare("SELECT v FROM ks.t")
+            self.prepared.is_idempotent = (self.prep == "yes")
+            for node in self.nodes:
+                node.auto, node.auto_answer = False, None
+                del node.pending[:]
         self.cluster.executor.inline = False
         self._tap_executor()
         self.hosts = {}
@@ -274,7 +291,11 @@ class ReqHarness:
         fn(act)
 
     def act_Start(self, act):
-        st = SimpleStatement("SELECT v FROM ks.t", is_idempotent=self.idem)
+        if self.prepared is not None:
+            st = self.prepared.bind(())
+            st.is_idempotent = self.idem        # the executed statement's own flag (may differ from the prepared one's)
+        else:
+            st = SimpleStatement("SELECT v FROM ks.t", is_idempotent=self.idem)
         self.epoch_start = self.world.clock.now
         kw = {}
         if self.target:
@@ -304,6 +325,25 @@ class ReqHarness:
             node.respond_rows(p, [("v", wire.T_INT)], [[wire.w_int(act["a"])]],
                               paging_state=(b"page2" if k == "more" else None))
 
+    def act_AnsSchema(self, act):
+        p = self._attempt(act["a"])
+        self._node_of(p).respond(p, wire.RESULT, wire.body_schema_change(4, "CREATED", "TABLE", "ks", "t2"))
+
+    def _refresh_tasks(self):
+        return [t for t in self.cluster.executor.queue
+                if t.label == "refresh_schema_and_set_result" and len(t.args) >= 3 and t.args[1] is self.fut]
+
+    def act_RefreshTask(self, act):
+        ts = self._refresh_tasks()
+        if not ts:
+            raise HarnessRefusal("no refresh_schema_and_set_result task queued")
+        if act.get("k") == "raises" or act.get("ok") is False:
+            ts[0].args[2].close()           # the answering connection dies while the driver polls for schema agreement
+        self.cluster.executor.run(ts[0])
+        exc = ts[0].future.exception()
+        if exc is not None:
+            raise exc
+
     def act_AnsErr(self, act):
         p = self._attempt(act["a"])
         self.retry.script = (act["d"], act["c"])
@@ -332,6 +372,9 @@ class ReqHarness:
 
     def act_SpecFire(self, act):
         self.world.fire(self._live_timer("spec"), advance=True)
+
+    def act_RecheckFire(self, act):
+        self.world.fire(self._live_timer("recheck"), advance=True)
 
     def act_TimeoutFire(self, act):
         self.world.fire(self._live_timer("timeout"), advance=True)
@@ -369,6 +412,8 @@ class ReqHarness:
             return "stale"
         cbk = t.callback
         name = getattr(getattr(cbk, "func", cbk), "__name__", "?")
+        if name == "_on_timeout" and (getattr(cbk, "keywords", None) or {}).get("_attempts"):
+            return "recheck"            # PYTHON-853: partial(self._on_timeout, _attempts=n)
         return {"_on_speculative_execute": "spec", "_on_timeout": "timeout"}.get(name, "timer:" + name)
 
     def _host_idx(self, host):
@@ -441,7 +486,7 @@ class ReqHarness:
             return {"pool": pool, "plan": (), "tried": (), "errs": tuple("none" for _ in range(n)), "att": frozenset(),
                     "sentLog": (), "policyLog": (), "retries": 0, "cl": INIT_CL, "specLeft": self.spec, "timer": "none",
                     "final": "unset", "result": "unset", "paging": False, "cb": tuple(self.cb), "eb": tuple(self.eb),
-                    "dlv": tuple(self.dlv), "queue": (), "epoch": 1, "lastConn": 0, "nhaErrors": None, "now": 0, "due": 0}
+                    "dlv": tuple(self.dlv), "queue": (), "epoch": 1, "lastConn": 0, "nhaErrors": None, "now": 0, "due": 0, "rechecks": None, "refq": ()}
         has_res = f._final_result is not ccluster._NOT_SET
         has_exc = f._final_exception is not None
         if has_res and has_exc:
@@ -496,13 +541,15 @@ class ReqHarness:
             "epoch": self.epoch,
             "lastConn": self._conn_host(f._connection),
             "nhaErrors": nha,
+            "refq": tuple(self._conn_host(t.args[2]) for t in self._refresh_tasks()),
+            "rechecks": (getattr(f._timer.callback, "keywords", None) or {}).get("_attempts") if self._timer_kind(f._timer) == "recheck" else None,
             "now": self._t(self.world.clock.now - self.epoch_start) if self.timed else 0,
-            "due": self._t(f._timer.end - self.epoch_start) if self.timed and self._timer_kind(f._timer) in ("spec", "timeout") else 0,
+            "due": self._t(f._timer.end - self.epoch_start) if self.timed and self._timer_kind(f._timer) in ("spec", "timeout", "recheck") else 0,
         }
 
     @staticmethod
     def _t(x):
-        r = round(x, 6)
+        r = round(x, 1)                 # 10 ms re-checks and the epsilon of blocking waits are below the model's resolution
         return int(r) if r == int(r) else r
 
     def _host_idx_addr(self, p):
@@ -531,7 +578,7 @@ class ReqHarness:
             if f._event.is_set():
                 break
             t = f._timer
-            if self._timer_kind(t) not in ("spec", "timeout"):
+            if self._timer_kind(t) not in ("spec", "timeout", "recheck"):
                 return {"timer": {"spec": "live timer while incomplete", "code": self._timer_kind(t)}}
             if t.end > deadline:
                 return {"deadline": {"spec": "timer due by start+timeout", "code": "due %.3fs after the start" % (t.end - self.epoch_start)}}
@@ -581,7 +628,7 @@ def spec_view(s):
         "epoch": s["epoch"],
         "lastConn": s["lastConn"],
         "nhaErrors": "n/a",
-        "now": s.get("now", 0), "due": s.get("due", 0),
+        "now": s.get("now", 0), "due": s.get("due", 0), "rechecks": s.get("rechecks", 0), "refq": tuple(s.get("refq", ())),
         "_pend": s["pend"]["host"] if "pend" in s else 0,
         "_nhaCls": fn(s["nhaCls"]) if "nhaCls" in s else None,
     }
@@ -595,6 +642,8 @@ def diff(spec, real, started=True):
             # NoHostAvailable.errors must carry what _errors held when it was raised: compare with errs of the
             # spec state in which final became NoHostAvailable; later states only require it not to shrink
             continue
+        if k == "rechecks" and spec["timer"] != "recheck" and rv is None:
+            continue                    # the counter only lives in a pending re-check timer
         if k == "plan" and rv is None:
             continue                    # a non-iterator plan (explicit host): remaining part not observable
         if k == "specLeft" and not started:
@@ -669,7 +718,7 @@ def config_of(state):
     pool = state["pool"]
     pool = tuple(pool) if isinstance(pool, tuple) else tuple(pool[k] for k in sorted(pool))
     tm = tuple(state["tm"]) if "tm" in state else (0, 0)
-    return {"pool": [str(x) for x in pool], "idem": bool(state["idem"]), "spec": int(state["specLeft"]),
+    return {"prep": str(state.get("prep", "none")), "pool": [str(x) for x in pool], "idem": bool(state["idem"]), "spec": int(state["specLeft"]),
             "target": int(state["target"]), "ids": str(state.get("ids", "default")), "tm": [int(tm[0]), int(tm[1])]}
 
 
@@ -694,7 +743,7 @@ def replay(nhosts, states, max_epoch=2, drain=True, log=None, resync=True):
     target = (cfg["target"], cfg["idem"])
     out = []
     h = ReqHarness(nhosts, cfg["pool"], cfg["idem"], cfg["spec"], cfg["target"], max_epoch=max_epoch, ids=cfg["ids"],
-                   tm=cfg["tm"])
+                   tm=cfg["tm"], prep=cfg["prep"])
     try:
         d = diff(spec_view(states[0]), h.project(), started=False)
         if d:
@@ -793,7 +842,7 @@ def post_of(p):
         "retries": p["retries"], "cl": p["cl"], "specLeft": p["specLeft"], "timer": p["timer"], "final": p["final"],
         "result": p["result"], "paging": p["paging"], "cb": list(p["cb"]), "eb": list(p["eb"]), "dlv": list(p["dlv"]),
         "queue": [list(x) for x in p["queue"]], "epoch": p["epoch"], "lastConn": p["lastConn"],
-        "now": p["now"], "due": p["due"],
+        "now": p["now"], "due": p["due"], "refq": list(p["refq"]),
     }
     if p["plan"] is not None:
         out["plan"] = list(p["plan"])
@@ -818,9 +867,10 @@ def record(rng, nhosts=3, max_events=14, max_retries=3, max_epoch=2, p_bad=0.25,
     tm = rng.choice(TIME_CHOICES) if "busy" not in pool else (0, 0)
     if tm[0] > 0:
         spec = rng.choice((0, 1, 2, 3))
-    h = ReqHarness(nhosts, pool, idem, spec, target, max_epoch=max_epoch, ids=ids, tm=tm)
+    prep = rng.choice(("none", "none", "yes", "no"))
+    h = ReqHarness(nhosts, pool, idem, spec, target, max_epoch=max_epoch, ids=ids, tm=tm, prep=prep)
     events = [{"e": "Config", "pool": pool, "idem": idem, "spec": spec, "target": target, "ids": ids,
-               "budget": tm[0], "delay": tm[1]}]
+               "budget": tm[0], "delay": tm[1], "prep": prep}]
     try:
         ev = {"e": "Start"}
         try:
@@ -840,8 +890,12 @@ def record(rng, nhosts=3, max_events=14, max_retries=3, max_epoch=2, p_bad=0.25,
                 ops += [("SpecFire", None)] * 2
             if tk == "timeout":
                 ops.append(("TimeoutFire", None))
+            if tk == "recheck":
+                ops.append(("RecheckFire", None))
             if h._retry_tasks():
                 ops += [("RetryTask", None)] * 3
+            if h._refresh_tasks():
+                ops += [("RefreshTask", None)] * 3
             if (h.epoch < max_epoch and f._paging_state is not None and f._final_exception is None
                     and f._final_result is not ccluster._NOT_SET and f._final_result
                     and not h._registered() and not h._retry_tasks()):
@@ -853,7 +907,10 @@ def record(rng, nhosts=3, max_events=14, max_retries=3, max_epoch=2, p_bad=0.25,
             try:
                 if op == "Ans":
                     r = rng.random()
-                    if r < 0.34:
+                    if r < 0.06:
+                        ev = {"e": "AnsSchema", "a": arg}
+                        h.act_AnsSchema(ev)
+                    elif r < 0.34:
                         ev = {"e": "AnsOk", "a": arg, "k": rng.choice(("rows", "more", "void"))}
                         h.act_AnsOk(ev)
                     elif r < 0.42:
@@ -877,6 +934,9 @@ def record(rng, nhosts=3, max_events=14, max_retries=3, max_epoch=2, p_bad=0.25,
                             ev = {"e": "StoreErr"}
                         else:
                             h.act_AnsErr(ev)
+                elif op == "RefreshTask":
+                    ev["ok"] = rng.random() < 0.5
+                    h.act_RefreshTask(ev)
                 else:
                     getattr(h, "act_" + op)(ev)
                 ev["post"] = post_of(h.project())
